@@ -145,7 +145,7 @@ def _nth_index(evs, name, n):
 # scenarios
 # ---------------------------------------------------------------------------------------
 
-READER_ENDS = [['feed', 'eof'], ['feed', 'partial'], ['feed', 'err'], ['feed', 'timeout'], ['disc', 'REQUESTED'], ['send', 'fail'],
+READER_ENDS = [['feed', 'eof'], ['feed', 'partial'], ['feed', 'err'], ['feed', 'lost'], ['feed', 'timeout'], ['disc', 'REQUESTED'], ['send', 'fail'],
                ['send', 'hang']]
 
 
@@ -165,7 +165,7 @@ def systematic():
     for init in ('peerinit_P', 'peerinit_F', 'peerinit_D', 'pierce_known'):
         for end in READER_ENDS:
             bases.append(('in', [['accept'], ['init', init], ['feed', 'msg'], end, ['feed', 'msg'], ['send', 'ok']]))
-    for init in ('pierce_unknown', 'other', 'eof', 'partial', 'err', 'timeout', 'undecodable'):
+    for init in ('pierce_unknown', 'other', 'eof', 'partial', 'err', 'lost', 'timeout', 'undecodable'):
         bases.append(('in', [['accept'], ['init', init], ['send', 'ok'], ['disc', 'REQUESTED']]))
     for end in READER_ENDS:
         bases.append(('server', [['create'], ['conn_ok', 'ok'], ['start_reader'], ['feed', 'msg'], end, ['feed', 'msg'], ['create'],
@@ -220,11 +220,11 @@ POOL = {
             ['conn_fail', 'unicode'], ['conn_timeout'], ['cancel'],
             ['send_timeout']],
     'in': [['init', 'peerinit_P'], ['init', 'peerinit_P'], ['init', 'peerinit_F'], ['init', 'peerinit_D'], ['init', 'pierce_known'],
-           ['init', 'pierce_unknown'], ['init', 'other'], ['init', 'eof'], ['init', 'partial'], ['init', 'err'], ['init', 'timeout'],
+           ['init', 'pierce_unknown'], ['init', 'other'], ['init', 'eof'], ['init', 'partial'], ['init', 'err'], ['init', 'lost'], ['init', 'timeout'],
            ['init', 'undecodable']],
     'server': [['conn_ok', 'ok'], ['conn_ok', 'ok'], ['conn_fail'], ['conn_fail', 'value'], ['conn_timeout'], ['cancel'], ['start_reader'], ['start_reader'], ['create']],
 }
-COMMON = [['feed', 'msg'], ['feed', 'msg'], ['feed', 'eof'], ['feed', 'partial'], ['feed', 'err'], ['feed', 'timeout'], ['feed', 'undecodable'],
+COMMON = [['feed', 'msg'], ['feed', 'msg'], ['feed', 'eof'], ['feed', 'partial'], ['feed', 'err'], ['feed', 'lost'], ['feed', 'timeout'], ['feed', 'undecodable'],
           ['send', 'ok'], ['send', 'ok'], ['send', 'fail'], ['send', 'hang'], ['qsend', 'ok'], ['qsend', 'fail'], ['tail_disc', 'feed_first'],
           ['tail_disc', 'disc_first'], ['disc', 'REQUESTED'], ['disc', 'REQUESTED'], ['disc', 'UNKNOWN'],
           ['close_done'], ['close_done']]
